@@ -89,6 +89,20 @@ def make_L(interp, fr, k, g0, env0, extra=None):
     L.g = interp.ctx.graphs
     L.env, L.env0 = fr.env, env0
     L.assuming = False
+    node = getattr(interp, 'cur_loop_node', None)
+    if node is not None:
+        # names bound by the loop target and accumulators updated with an augmented assignment in the body: contracts refer
+        # to loop variables by POSITION, so that renaming a local does not break a proof
+        L.tnames = [n.id for n in ast.walk(node.target) if isinstance(n, ast.Name)] if hasattr(node, 'target') else []
+        L.augmented = [n.target.id for st in node.body for n in ast.walk(st) if isinstance(n, ast.AugAssign) and isinstance(n.target, ast.Name)]
+        L.tv = lambda i: L.env[L.tnames[i]]
+    L.iterable = getattr(interp, 'cur_loop_iterable', None)
+    stack = getattr(interp, 'loop_stack', [])
+    if len(stack) >= 2:
+        onode, oit = stack[-2]
+        onames = [n.id for n in ast.walk(onode.target) if isinstance(n, ast.Name)]
+        L.otv = lambda i: L.env[onames[i]]          # i-th variable of the ENCLOSING loop
+        L.outer_iterable = oit
     if extra:
         for a, b in extra.items():
             setattr(L, a, b)
@@ -96,6 +110,21 @@ def make_L(interp, fr, k, g0, env0, extra=None):
 
 
 def exec_for_cut(interp, node, fr, it, spec):
+    ctx = interp.ctx
+    saved = (getattr(interp, 'cur_loop_node', None), getattr(interp, 'cur_loop_iterable', None))
+    interp.cur_loop_node, interp.cur_loop_iterable = node, it
+    if not hasattr(interp, 'loop_stack'):
+        interp.loop_stack = []
+    interp.loop_stack.append((node, it))
+    try:
+        return _exec_for_cut(interp, node, fr, it, spec)
+    finally:
+        interp.loop_stack.pop()
+        # (nested loops: the inner cut restores the outer loop's node when it returns normally; PathEnd ends the path anyway)
+        interp.cur_loop_node, interp.cur_loop_iterable = saved
+
+
+def _exec_for_cut(interp, node, fr, it, spec):
     ctx = interp.ctx
     if it.kind in ('range', 'timeline', 'seq'):
         return _index_cut(interp, node, fr, IndexIter(interp, it), spec)
